@@ -40,7 +40,8 @@ def sets_offering(key):
 
 
 class CtorUnit(Unit):
-    properties = ("C01", "C03", "C17")
+    properties = ("C01", "C03", "C17", "C09")
+    frame_check = True
 
     def __init__(self, cls):
         self.cls = cls
